@@ -1,4 +1,5 @@
-/* C08 harnesses: rely/guarantee over one state word (spin_mutex, spin_rw_mutex) and the MCS token protocol (queuing_mutex).
+/* C08 harnesses: rely/guarantee over one state word (spin_mutex, spin_rw_mutex, rw_mutex incl. its sleeping side, mutex on waitable_atomic), the MCS token protocol (queuing_mutex),
+   the scoped_lock wrappers (SCOPED).  queuing_rw_mutex: c08_qrw.c; speculative (RTM) mutexes: c08_rtm.c.
    Every ATOMIC_*_AT(site, ...) primitive = interference by any number of other threads, then the plain operation, then the
    site's ghost hook, then the guarantee (INV re-established).  *.inc are generated from /repo on every run. */
 #include "verif.h"
@@ -36,13 +37,14 @@ static void interfere(void) {
 #define ATOMIC_ADD_FETCH_AT(site, f, d) RG_SITE(site, state_type, ((f) = old_ + (d), (f)))
 #define NOG ((void)0)
 #define IDLE (!meW && !meU && !meR && !meT)
-#define LOOPI(cond) __CPROVER_assigns(m_state, gW, gU, gR, gT, meW, meU, meR, meT) __CPROVER_loop_invariant(INV && BOUND && (cond))
+#define LOOPI(cond) __CPROVER_assigns(m_state, gW, gU, gR, gT, meW, meU, meR, meT EXTRA_ASSIGNS) __CPROVER_loop_invariant(INV && BOUND && (cond))
 #define PRE(c) do { m_state = nondet_intptr_t(); gW = nondet_ulong(); gU = nondet_ulong(); gR = nondet_ulong(); gT = nondet_ulong(); \
     meW = nondet_bool(); meU = nondet_bool(); meR = nondet_bool(); meT = nondet_bool(); __CPROVER_assume(INV && BOUND && (c)); } while (0)
 state_type IN_state;
 #endif
 
 #ifdef SRW
+#define EXTRA_ASSIGNS
 #define GHOST_lock_1 NOG
 #define GHOST_lock_2 if (r_) { gW++; meW = true; }
 #define GHOST_lock_3 NOG
@@ -82,6 +84,7 @@ void h_srw_downgrade(void) { PRE(meW && !meU && !meR && !meT); IN_state = m_stat
 #ifdef RWM
 /* rw_mutex: same word layout and census; readers also back off on WRITER_PENDING; unlock keeps WRITER_PENDING */
 #define HASW (WRITER | WRITER_PENDING)
+#define EXTRA_ASSIGNS , g_rel, g_new, g_slept, g_nW, g_nR, g_nA
 #define GHOST_lock_1 NOG
 #define GHOST_lock_2 NOG
 #define GHOST_try_lock_1 NOG
@@ -99,18 +102,39 @@ void h_srw_downgrade(void) { PRE(meW && !meU && !meR && !meT); IN_state = m_stat
 #define GHOST_downgrade_3 NOG
 #define LOOP_lock_1 LOOPI(IDLE)
 #define LOOP_lock_shared_1 LOOPI(IDLE)
-#define LOOP_upgrade_1 __CPROVER_assigns(m_state, gW, gU, gR, gT, meW, meU, meR, meT, s) __CPROVER_loop_invariant(INV && BOUND && !meW && !meU && meR && !meT)
+#define LOOP_upgrade_1 __CPROVER_assigns(m_state, gW, gU, gR, gT, meW, meU, meR, meT, s EXTRA_ASSIGNS) __CPROVER_loop_invariant(INV && BOUND && !meW && !meU && meR && !meT)
 #define LOOP_upgrade_2 LOOPI(!meW && meU && meR && !meT)
+/* sleeping side: adaptive_wait_on_address may return at any time (pure interference point); notifications are recorded.  g_rel: this call has changed the state word in the
+   releasing direction (writer bit cleared / a reader count taken back / writer turned reader); g_new: the state word it wrote */
+#define WRITER_CONTEXT ((uintptr_t)0)
+#define READER_CONTEXT ((uintptr_t)1)
+bool g_rel; state_type g_new; unsigned g_slept, g_nW, g_nR, g_nA; uintptr_t g_sleep_ctx;
+static void STUB_wait(uintptr_t ctx) { OBLIGATION(ctx == g_sleep_ctx, "C08.rw_mutex: a writer (lock, upgrade) sleeps in the writer context, a reader in the reader context - the contexts unlock/unlock_shared/downgrade notify"); g_slept++; interfere(); }
+static void STUB_notify(uintptr_t ctx) { OBLIGATION(g_rel, "C08.rw_mutex: waiters are notified only after the state word was changed (a woken thread re-reads the word) - no lost grant"); if (ctx == WRITER_CONTEXT) g_nW++; else g_nR++; }
+static void STUB_notify_all(void) { OBLIGATION(g_rel, "C08.rw_mutex: waiters are notified only after the state word was changed (a woken thread re-reads the word) - no lost grant"); g_nA++; }
+#undef GHOST_unlock_1
+#define GHOST_unlock_1 { gW--; meW = false; g_rel = true; g_new = m_state; }
+#undef GHOST_unlock_shared_1
+#define GHOST_unlock_shared_1 { gR--; meR = false; g_rel = true; g_new = m_state; }
+#undef GHOST_try_lock_shared_3
+#define GHOST_try_lock_shared_3 { gT--; meT = false; g_rel = true; g_new = m_state; }
+#undef GHOST_downgrade_2
+#define GHOST_downgrade_2 { gW--; gR++; meW = false; meR = true; g_rel = true; g_new = m_state; }
+#define SLEEPPRE(ctx) do { g_rel = false; g_slept = g_nW = g_nR = g_nA = 0; g_sleep_ctx = (ctx); } while (0)
 bool rw_mutex_try_lock(void); bool rw_mutex_try_lock_shared(void); void rw_mutex_unlock_shared(void); void rw_mutex_lock(void);
 #include "rwm.inc"
-void h_rwm_lock(void) { PRE(IDLE); IN_state = m_state; rw_mutex_lock(); interfere(); OBLIGATION(meW && gW == 1 && gR == 0 && gU == 0, "C08.rw_mutex: after lock() this thread is the only writer and there is no reader"); VACUITY_END(); }
-void h_rwm_try_lock(void) { PRE(IDLE); IN_state = m_state; bool ok = rw_mutex_try_lock(); interfere(); OBLIGATION(ok ? (meW && gW == 1 && gR == 0 && gU == 0) : IDLE, "C08.rw_mutex: try_lock is truthful and holds nothing when it fails"); VACUITY_END(); }
-void h_rwm_unlock(void) { PRE(meW && !meU && !meR && !meT); IN_state = m_state; rw_mutex_unlock(); OBLIGATION(IDLE, "C08.rw_mutex: unlock releases the writer"); VACUITY_END(); }
-void h_rwm_lock_shared(void) { PRE(IDLE); IN_state = m_state; rw_mutex_lock_shared(); interfere(); OBLIGATION(meR && gW == 0 && !meT, "C08.rw_mutex: after lock_shared() this thread is a reader and there is no writer"); VACUITY_END(); }
-void h_rwm_try_lock_shared(void) { PRE(IDLE); IN_state = m_state; bool ok = rw_mutex_try_lock_shared(); interfere(); OBLIGATION(ok ? (meR && gW == 0 && !meT) : IDLE, "C08.rw_mutex: try_lock_shared is truthful"); VACUITY_END(); }
-void h_rwm_unlock_shared(void) { PRE(!meW && !meU && meR && !meT); IN_state = m_state; rw_mutex_unlock_shared(); OBLIGATION(IDLE, "C08.rw_mutex: unlock_shared releases the reader"); VACUITY_END(); }
-void h_rwm_upgrade(void) { PRE(!meW && !meU && meR && !meT); IN_state = m_state; bool ok = rw_mutex_upgrade(); interfere(); OBLIGATION(meW && !meR && !meU && gW == 1 && gR == 0, "C08.rw_mutex: after upgrade() this thread is the only writer, no reader remains"); VACUITY_END(); }
-void h_rwm_downgrade(void) { PRE(meW && !meU && !meR && !meT); IN_state = m_state; rw_mutex_downgrade(); interfere(); OBLIGATION(meR && !meW && gW == 0, "C08.rw_mutex: downgrade goes writer->reader in one step"); VACUITY_END(); }
+void h_rwm_lock(void) { PRE(IDLE); SLEEPPRE(WRITER_CONTEXT); IN_state = m_state; rw_mutex_lock(); interfere(); OBLIGATION(meW && gW == 1 && gR == 0 && gU == 0, "C08.rw_mutex: after lock() this thread is the only writer and there is no reader"); VACUITY_END(); }
+void h_rwm_try_lock(void) { PRE(IDLE); SLEEPPRE(WRITER_CONTEXT); IN_state = m_state; bool ok = rw_mutex_try_lock(); OBLIGATION(g_slept == 0, "C08.rw_mutex: try_lock never sleeps"); interfere(); OBLIGATION(ok ? (meW && gW == 1 && gR == 0 && gU == 0) : IDLE, "C08.rw_mutex: try_lock is truthful and holds nothing when it fails"); VACUITY_END(); }
+void h_rwm_unlock(void) { PRE(meW && !meU && !meR && !meT); SLEEPPRE(WRITER_CONTEXT); IN_state = m_state; rw_mutex_unlock();
+    OBLIGATION(g_rel && ((g_new & WRITER_PENDING) ? (g_nW == 1 && g_nA == 0) : g_nA == 1), "C08.rw_mutex: unlock wakes the writers when a writer is pending in the word it wrote, everybody otherwise - after the write, exactly once"); OBLIGATION(IDLE, "C08.rw_mutex: unlock releases the writer"); VACUITY_END(); }
+void h_rwm_lock_shared(void) { PRE(IDLE); SLEEPPRE(READER_CONTEXT); IN_state = m_state; rw_mutex_lock_shared(); interfere(); OBLIGATION(meR && gW == 0 && !meT, "C08.rw_mutex: after lock_shared() this thread is a reader and there is no writer"); VACUITY_END(); }
+void h_rwm_try_lock_shared(void) { PRE(IDLE); SLEEPPRE(READER_CONTEXT); IN_state = m_state; bool ok = rw_mutex_try_lock_shared(); OBLIGATION(g_slept == 0, "C08.rw_mutex: try_lock_shared never sleeps");
+    OBLIGATION(g_rel ? (!ok && g_nW == 1) : (g_nW == 0 && g_nA == 0), "C08.rw_mutex: a reader increment that had to be taken back wakes the writers it may have blocked; nothing else notifies"); interfere(); OBLIGATION(ok ? (meR && gW == 0 && !meT) : IDLE, "C08.rw_mutex: try_lock_shared is truthful"); VACUITY_END(); }
+void h_rwm_unlock_shared(void) { PRE(!meW && !meU && meR && !meT); SLEEPPRE(READER_CONTEXT); IN_state = m_state; rw_mutex_unlock_shared();
+    OBLIGATION(g_rel && ((g_new & WRITER_PENDING) ? (g_nW == 1 && g_nA == 0) : g_nA == 1), "C08.rw_mutex: unlock_shared wakes the writers when a writer is pending in the word it wrote, everybody otherwise - after the write, exactly once"); OBLIGATION(IDLE, "C08.rw_mutex: unlock_shared releases the reader"); VACUITY_END(); }
+void h_rwm_upgrade(void) { PRE(!meW && !meU && meR && !meT); SLEEPPRE(WRITER_CONTEXT); IN_state = m_state; bool ok = rw_mutex_upgrade(); interfere(); OBLIGATION(meW && !meR && !meU && gW == 1 && gR == 0, "C08.rw_mutex: after upgrade() this thread is the only writer, no reader remains"); VACUITY_END(); }
+void h_rwm_downgrade(void) { PRE(meW && !meU && !meR && !meT); SLEEPPRE(WRITER_CONTEXT); IN_state = m_state; rw_mutex_downgrade();
+    OBLIGATION(g_rel && g_nW == 0 && g_nA == 0 && g_nR <= 1, "C08.rw_mutex: downgrade wakes readers only, after the word was changed"); interfere(); OBLIGATION(meR && !meW && gW == 0, "C08.rw_mutex: downgrade goes writer->reader in one step"); VACUITY_END(); }
 #endif
 
 
@@ -184,6 +208,89 @@ void h_qm_release(void) {
     __CPROVER_assume(QINV);
     qnode_release(&me);
     OBLIGATION(!me_in && tok != T_ME && tok != T_ME_INFLIGHT && me.m_mutex == NULL, "C08.queuing_mutex: release gives the token away exactly once (to the successor or back to free)");
+    VACUITY_END();
+}
+#endif
+
+#ifdef MX
+/* d1::mutex on waitable_atomic<bool>: the spin_mutex protocol plus sleeping.  r1::wait_on_address may return at any time (spurious wake-ups included): it is a pure interference point;
+   timed_spin_wait_until evaluates its predicate one or more times and returns the last value. */
+struct waitable_atomic_bool { bool my_atomic; };
+struct mutex { struct waitable_atomic_bool my_flag; };
+struct mutex MXM; unsigned long gH; bool meH; bool g_last, g_cleared; unsigned g_slept, g_notified;
+#define INV (gH <= 1 && MXM.my_flag.my_atomic == (gH == 1) && gH >= meH)
+static void interfere(void) { MXM.my_flag.my_atomic = nondet_bool(); gH = nondet_ulong(); __CPROVER_assume(INV); }
+#define ATOMIC_LOAD_AT(site, f) ({ interfere(); g_last = (f); g_last; })
+#define ATOMIC_XCHG_AT(site, f, v) ({ interfere(); bool old_ = (f); if (v) { (f) = true; if (!old_) { gH++; meH = true; } } \
+    else { __CPROVER_assert(meH, "guarantee: only the holder clears the flag, at " #site); (f) = false; gH--; meH = false; g_cleared = true; } \
+    __CPROVER_assert(INV, "guarantee: INV re-established at " #site); old_; })
+#define TIMED_SPIN_WAIT_UNTIL(e) ({ bool f_ = (e); if (!f_ && nondet_bool()) f_ = (e); f_; })
+static void STUB_wait_on_address(struct waitable_atomic_bool *w, uintptr_t ctx) { OBLIGATION(w == &MXM.my_flag, "C08.mutex: the waiter sleeps on the address of the flag it polls"); g_slept++; interfere(); }
+static void STUB_notify_by_address_one(struct waitable_atomic_bool *w) {
+    OBLIGATION(g_cleared && !meH, "C08.mutex: unlock clears the flag before it notifies (a woken waiter, or one that is about to sleep and re-checks, reads a cleared flag) - no lost grant");
+    OBLIGATION(w == &MXM.my_flag, "C08.mutex: the notification goes to the address the waiters sleep on"); g_notified++; }
+#define LOOP_wa_wait_1 __CPROVER_assigns(MXM, gH, g_last, g_slept) __CPROVER_loop_invariant(INV && !meH && !g_cleared && g_notified == 0)
+#define LOOP_lock_1 __CPROVER_assigns(MXM, gH, meH, g_last, g_slept) __CPROVER_loop_invariant(INV && !meH && !g_cleared && g_notified == 0)
+static bool mutex_try_lock(struct mutex* self);
+#include "mx.inc"
+#define MXPRE(c) do { MXM.my_flag.my_atomic = nondet_bool(); gH = nondet_ulong(); meH = nondet_bool(); g_cleared = false; g_slept = 0; g_notified = 0; g_last = nondet_bool(); __CPROVER_assume(INV && (c)); } while (0)
+void h_mx_lock(void) { MXPRE(!meH); mutex_lock(&MXM); OBLIGATION(meH, "C08.mutex: lock() returns only through a successful try_lock (the woken waiter re-takes the flag itself)"); interfere();
+    OBLIGATION(meH && gH == 1, "C08.mutex: after lock() this thread is the only holder"); OBLIGATION(g_notified == 0 && !g_cleared, "C08.mutex: lock() neither clears the flag nor notifies"); VACUITY_END(); }
+void h_mx_try_lock(void) { MXPRE(!meH); bool ok = mutex_try_lock(&MXM); interfere(); OBLIGATION(ok == meH && (ok ? gH == 1 : 1), "C08.mutex: try_lock returns true iff it took the lock");
+    OBLIGATION(g_slept == 0, "C08.mutex: try_lock never sleeps"); VACUITY_END(); }
+void h_mx_unlock(void) { MXPRE(meH); mutex_unlock(&MXM); OBLIGATION(!meH && g_cleared, "C08.mutex: unlock releases"); OBLIGATION(g_notified == 1, "C08.mutex: unlock notifies one waiter, once"); VACUITY_END(); }
+bool IN_old;
+void h_mx_wait(void) { MXPRE(!meH); bool old = IN_old = nondet_bool(); waitable_atomic_wait(&MXM.my_flag, old, 0);
+    OBLIGATION(g_last != old, "C08.waitable_atomic: wait(old) returns only after it read a value different from old: a woken waiter re-checks the flag (spurious or stale wake-ups are absorbed)");
+    OBLIGATION(!meH && !g_cleared && g_notified == 0, "C08.waitable_atomic: wait changes nothing"); VACUITY_END(); }
+#endif
+
+#ifdef SCOPED
+/* unique_scoped_lock<Mutex> / rw_scoped_lock<Mutex> over a stub mutex that records the mode held: 0 free of this thread, 1 shared, 2 exclusive.  The mutex operations themselves are proved in
+   the sections above; here: pairing of acquire/release, truthful try_acquire, m_is_writer truthful across upgrade/downgrade. */
+struct stub_mutex { int mode; unsigned n_lock, n_unlock, n_lock_shared, n_unlock_shared, n_upgrade, n_downgrade, n_try; bool up_result; };
+struct unique_lock { struct stub_mutex *m_mutex; };
+struct rw_lock { struct stub_mutex *m_mutex; bool m_is_writer; };
+struct stub_mutex MU, MU2;
+#define FREE_PRE(m) OBLIGATION((m) == &MU && MU.mode == 0, "C08.scoped_lock: a lock operation is issued on the mutex asked for, by a scoped_lock that holds nothing")
+static void STUB_mx_lock(struct stub_mutex *m) { FREE_PRE(m); m->mode = 2; m->n_lock++; }
+static void STUB_mx_lock_shared(struct stub_mutex *m) { FREE_PRE(m); m->mode = 1; m->n_lock_shared++; }
+static bool STUB_mx_try_lock(struct stub_mutex *m) { FREE_PRE(m); m->n_try++; bool ok = nondet_bool(); if (ok) m->mode = 2; return ok; }
+static bool STUB_mx_try_lock_shared(struct stub_mutex *m) { FREE_PRE(m); m->n_try++; bool ok = nondet_bool(); if (ok) m->mode = 1; return ok; }
+static void STUB_mx_unlock(struct stub_mutex *m) { OBLIGATION(m == &MU && m->mode == 2, "C08.scoped_lock: unlock() is called only on the mutex held, and only when it is held exclusively"); m->mode = 0; m->n_unlock++; }
+static void STUB_mx_unlock_shared(struct stub_mutex *m) { OBLIGATION(m == &MU && m->mode == 1, "C08.scoped_lock: unlock_shared() is called only on the mutex held, and only when it is held shared"); m->mode = 0; m->n_unlock_shared++; }
+static bool STUB_mx_upgrade(struct stub_mutex *m) { OBLIGATION(m == &MU && m->mode == 1, "C08.scoped_lock: upgrade() is called only by a reader"); m->mode = 2; m->n_upgrade++; m->up_result = nondet_bool(); return m->up_result; }
+static void STUB_mx_downgrade(struct stub_mutex *m) { OBLIGATION(m == &MU && m->mode == 2, "C08.scoped_lock: downgrade() is called only by a writer"); m->mode = 1; m->n_downgrade++; }
+#include "scoped.inc"
+struct unique_lock UL; struct rw_lock RL;
+static void mu_init(void) { MU.mode = 0; MU.n_lock = MU.n_unlock = MU.n_lock_shared = MU.n_unlock_shared = MU.n_upgrade = MU.n_downgrade = MU.n_try = 0; }
+#define RLINV (RL.m_mutex == NULL ? MU.mode == 0 : (RL.m_mutex == &MU && MU.mode != 0 && RL.m_is_writer == (MU.mode == 2)))
+#define RLINV_TEXT "the scoped_lock holds a mutex iff m_mutex is set, and m_is_writer tells the mode really held"
+bool IN_write; int IN_mode;
+void h_scoped_unique(void) {
+    mu_init(); UL.m_mutex = NULL;
+    if (nondet_bool()) { unique_acquire(&UL, &MU); OBLIGATION(UL.m_mutex == &MU && MU.mode == 2 && MU.n_lock == 1, "C08.scoped_lock[unique]: acquire locks the mutex once and records it"); }
+    else { bool ok = unique_try_acquire(&UL, &MU); OBLIGATION(ok == (MU.mode == 2) && (ok ? UL.m_mutex == &MU : UL.m_mutex == NULL) && MU.n_lock == 0, "C08.scoped_lock[unique]: try_acquire is truthful, records the mutex only on success, and uses the non-blocking try_lock"); }
+    bool held = UL.m_mutex != NULL;
+    if (nondet_bool()) { if (held) { unique_release(&UL); } } else unique_dtor(&UL);
+    OBLIGATION(UL.m_mutex == NULL && MU.mode == 0 && MU.n_unlock == (held ? 1 : 0), "C08.scoped_lock[unique]: release / the destructor unlock exactly once what was locked and nothing otherwise");
+    VACUITY_END();
+}
+void h_scoped_rw_acquire(void) {
+    mu_init(); RL.m_mutex = NULL; RL.m_is_writer = nondet_bool(); bool w = IN_write = nondet_bool();
+    if (nondet_bool()) { rwl_acquire(&RL, &MU, w); OBLIGATION(RLINV && RL.m_mutex == &MU && MU.mode == (w ? 2 : 1), "C08.scoped_lock[rw]: acquire takes the mode asked for; " RLINV_TEXT); }
+    else { bool ok = rwl_try_acquire(&RL, &MU, w); OBLIGATION(RLINV && ok == (RL.m_mutex != NULL) && (ok ? MU.mode == (w ? 2 : 1) : 1) && MU.n_lock == 0 && MU.n_lock_shared == 0, "C08.scoped_lock[rw]: try_acquire is truthful and non-blocking; " RLINV_TEXT); }
+    VACUITY_END();
+}
+void h_scoped_rw_held(void) {
+    mu_init(); int md = IN_mode = nondet_bool() ? 1 : 2; MU.mode = md; RL.m_mutex = &MU; RL.m_is_writer = (md == 2);
+    int op = nondet_int(); __CPROVER_assume(op >= 0 && op <= 4);
+    if (op == 0) { bool r = rwl_upgrade_to_writer(&RL); OBLIGATION(RLINV && MU.mode == 2, "C08.scoped_lock[rw]: after upgrade_to_writer the lock is held exclusively; " RLINV_TEXT);
+        OBLIGATION(md == 2 ? (r && MU.n_upgrade == 0) : (MU.n_upgrade == 1 && r == MU.up_result), "C08.scoped_lock[rw]: upgrade_to_writer passes the mutex's verdict on (false exactly when the mutex released the lock in between); a writer gets true without touching the mutex"); }
+    else if (op == 1) { bool r = rwl_downgrade_to_reader(&RL); OBLIGATION(r && RLINV && MU.mode == 1 && MU.n_downgrade == (md == 2 ? 1 : 0) && MU.n_unlock == 0, "C08.scoped_lock[rw]: downgrade_to_reader goes writer->reader in one mutex step, never through unlock; " RLINV_TEXT); }
+    else if (op == 2) { bool r = rwl_is_writer(&RL); OBLIGATION(r == (MU.mode == 2), "C08.scoped_lock[rw]: is_writer tells the mode really held"); }
+    else { if (op == 3) rwl_release(&RL); else rwl_dtor(&RL);
+        OBLIGATION(RLINV && RL.m_mutex == NULL && MU.n_unlock == (md == 2 ? 1 : 0) && MU.n_unlock_shared == (md == 1 ? 1 : 0), "C08.scoped_lock[rw]: release / the destructor call the unlock that matches the mode held, once"); }
     VACUITY_END();
 }
 #endif
